@@ -115,13 +115,60 @@ pub fn layouts() -> Vec<Layout> {
             files: vec![("pa/v.txt", "same"), ("pb/v.txt", "same")],
             writes: vec!["out/o.txt"],
         },
+        // the same command text, written with an absolute program path, in two project directories
+        Layout {
+            name: "two-producers-absolute-command-text",
+            projects: vec![
+                ("", None, "t:\n  build: ':'\n  input: ['pa::p.output', 'pb::p.output']\n  output: [{paths: [out/o.txt]}]\n"),
+                ("pa", Some("pa"), "p:\n  build: ':'\n  output: [{cmd_stdout: '/bin/cat v.txt'}]\n"),
+                ("pb", Some("pb"), "p:\n  build: ':'\n  output: [{cmd_stdout: '/bin/cat v.txt'}]\n"),
+            ],
+            target: "t",
+            files: vec![("pa/v.txt", "from-a"), ("pb/v.txt", "from-b")],
+            writes: vec!["out/o.txt"],
+        },
         mk("no-input", "t:\n  build: ':'\n  output: [{paths: [out/o.txt]}]\n", vec!["out/o.txt"]),
         mk("unstorable-state", "t:\n  build: ':'\n  input: [{paths: [src/a.txt]}, {cmd_stdout: 'cat missing-file.txt'}]\n  output: [{paths: [out/o.txt]}]\n", vec!["out/o.txt"]),
     ]
 }
 
+/// alternate declarations of the root project's targets (the zinoma.yml is edited between two invocations):
+/// every alternate only adds resources or changes a command's text, so "every declared resource is as recorded"
+/// cannot hold for the new declaration and the record of the old one must not allow a skip
+pub fn alts_for(name: &str) -> Vec<&'static str> {
+    match name {
+        "cmd-only" => vec![
+            // the command text is edited (prints the same text as before)
+            "t:\n  build: ':'\n  input: [{cmd_stdout: 'cat  v.txt'}]\n  output: [{paths: [out/o.txt]}]\n",
+            // a second command is added
+            "t:\n  build: ':'\n  input: [{cmd_stdout: 'cat v.txt'}, {cmd_stdout: 'echo fixed'}]\n  output: [{paths: [out/o.txt]}]\n",
+        ],
+        "file+cmd" => vec![
+            "t:\n  build: ':'\n  input: [{paths: [src/a.txt]}, {cmd_stdout: 'cat v.txt; true'}]\n  output: [{paths: [out/o.txt]}, {cmd_stdout: 'cat out/o.txt'}]\n",
+            // a command is added to the outputs
+            "t:\n  build: ':'\n  input: [{paths: [src/a.txt]}, {cmd_stdout: 'cat v.txt'}]\n  output: [{paths: [out/o.txt]}, {cmd_stdout: 'cat out/o.txt'}, {cmd_stdout: 'echo fixed'}]\n",
+            // a file resource is added to the inputs
+            "t:\n  build: ':'\n  input: [{paths: [src/a.txt]}, {paths: [src/b.csv]}, {cmd_stdout: 'cat v.txt'}]\n  output: [{paths: [out/o.txt]}, {cmd_stdout: 'cat out/o.txt'}]\n",
+        ],
+        "file-path" => vec![
+            // a command is added to a target that had none
+            "t:\n  build: ':'\n  input: [{paths: [src/a.txt]}, {cmd_stdout: 'cat v.txt'}]\n  output: [{paths: [out/o.txt]}]\n",
+            // another file is declared
+            "t:\n  build: ':'\n  input: [{paths: [src/a.txt, src/b.csv]}]\n  output: [{paths: [out/o.txt]}]\n",
+        ],
+        "inherited-output-same-project" => vec![
+            // the producer's command is edited / one is added: inherited through p.output
+            "p:\n  build: ':'\n  output: [{paths: [pout], extensions: [o]}, {cmd_stdout: 'cat  pv.txt'}]\nt:\n  build: ':'\n  input: [{paths: [src/a.txt]}, p.output]\n  output: [{paths: [out/o.txt]}]\n",
+            "p:\n  build: ':'\n  output: [{paths: [pout], extensions: [o]}, {cmd_stdout: 'cat pv.txt'}, {cmd_stdout: 'echo fixed'}]\nt:\n  build: ':'\n  input: [{paths: [src/a.txt]}, p.output]\n  output: [{paths: [out/o.txt]}]\n",
+        ],
+        _ => vec![],
+    }
+}
+
 #[derive(Clone, Debug, PartialEq, Eq, Hash, PartialOrd, Ord)]
 pub enum Op {
+    /// the root project's zinoma.yml is rewritten with alternate declaration #i (see `alts_for`)
+    Redeclare(usize),
     RewriteSameLength(&'static str),
     TouchSameContent(&'static str),
     ChangeContentRestoreMtime(&'static str),
@@ -188,6 +235,9 @@ pub fn ops_for(l: &Layout) -> Vec<Op> {
     if has("pa/v.txt") {
         v.extend(vec![RewriteSameLength("pa/v.txt"), RewriteSameLength("pb/v.txt"), TouchSameContent("pa/v.txt")]);
     }
+    for i in 0..alts_for(l.name).len() {
+        v.push(Redeclare(i));
+    }
     v.extend(vec![DeleteRecord, TruncateRecord]);
     v
 }
@@ -212,6 +262,7 @@ fn record_path(root: &Path, l: &Layout, meta: &domain::TargetMetadata) -> PathBu
 pub fn apply_op(root: &Path, op: &Op, rec: &Path) -> bool {
     use Op::*;
     match op {
+        Redeclare(_) => unreachable!("handled by apply_op_scene"),
         RewriteSameLength(f) => {
             let p = root.join(f);
             match std::fs::read(&p) {
@@ -381,8 +432,34 @@ pub fn materialise(l: &Layout, root: &Path) -> Scene {
     if l.name == "big-file" {
         write_clocked(&root.join("big.bin"), big_content().as_bytes());
     }
+    write_projects(l, root, None);
+    let (meta, input, output) = resolve_scene(l, root);
+    let rec = record_path(root, l, &meta);
+    Scene { root: root.to_path_buf(), meta, input, output, rec, executions: 0, record: None }
+}
+
+/// one operation of a history on a scene (a re-declaration re-resolves the target's resources, as a new invocation does)
+pub fn apply_op_scene(sc: &mut Scene, l: &Layout, o: &Op) -> bool {
+    if let Op::Redeclare(i) = o {
+        let alt = alts_for(l.name)[*i];
+        let root = sc.root.clone();
+        write_projects(l, &root, Some(alt));
+        let (meta, input, output) = resolve_scene(l, &root);
+        let same = input == sc.input && output == sc.output;
+        sc.meta = meta;
+        sc.input = input;
+        sc.output = output;
+        return !same;
+    }
+    let root = sc.root.clone();
+    let rec = sc.rec.clone();
+    apply_op(&root, o, &rec)
+}
+
+fn write_projects(l: &Layout, root: &Path, root_alt: Option<&str>) {
     let mut projects = HashMap::new();
     for (sub, name, targets_yaml) in &l.projects {
+        let targets_yaml: &str = if sub.is_empty() { root_alt.unwrap_or(targets_yaml) } else { targets_yaml };
         let dir = if sub.is_empty() { root.to_path_buf() } else { root.join(sub) };
         std::fs::create_dir_all(&dir).unwrap();
         let mut text = String::new();
@@ -403,6 +480,9 @@ pub fn materialise(l: &Layout, root: &Path) -> Scene {
         root_text = format!("imports:\n{}{}", imports.join(""), root_text);
         std::fs::write(root.join("zinoma.yml"), &root_text).unwrap();
     }
+}
+
+fn resolve_scene(l: &Layout, root: &Path) -> (domain::TargetMetadata, Resources, Resources) {
     let cfg = yaml::Config::load(root).unwrap_or_else(|e| panic!("layout {} does not load: {:#}", l.name, e));
     let ir: ir::Config = cfg.into();
     let id = domain::TargetId::try_parse(l.target, &ir.root_project_name).unwrap();
@@ -411,8 +491,7 @@ pub fn materialise(l: &Layout, root: &Path) -> Scene {
         domain::Target::Build(b) => (b.metadata, b.input, b.output),
         _ => panic!("target under test must be a build"),
     };
-    let rec = record_path(root, l, &meta);
-    Scene { root: root.to_path_buf(), meta, input, output, rec, executions: 0, record: None }
+    (meta, input, output)
 }
 
 // ---------------------------------------------------------------------------------------
@@ -639,7 +718,7 @@ pub fn run_histories_part(l: &Layout, ops: &[Op], len1: usize, len2: usize, orac
             step(&mut sc, "run#1", &mut log, &mut out, &mut bad);
             let mut applied_any = false;
             for o in h1 {
-                let ok = apply_op(&root, o, &sc.rec);
+                let ok = apply_op_scene(&mut sc, l, o);
                 if matches!(o, Op::DeleteRecord | Op::TruncateRecord) && ok {
                     sc.record = None;
                 }
@@ -649,7 +728,7 @@ pub fn run_histories_part(l: &Layout, ops: &[Op], len1: usize, len2: usize, orac
             step(&mut sc, "run#2", &mut log, &mut out, &mut bad);
             if let Some(h2) = h2 {
                 for o in h2 {
-                    let ok = apply_op(&root, o, &sc.rec);
+                    let ok = apply_op_scene(&mut sc, l, o);
                     if matches!(o, Op::DeleteRecord | Op::TruncateRecord) && ok {
                         sc.record = None;
                     }
@@ -789,6 +868,7 @@ pub fn check_c13(rep: &mut Report) {
             "inherited-output-imported-project" => (vec![(vec![r.join("src/a.txt")], None), (vec![r.join("libdir/src")], Some(vec![".txt".into()]))], vec![("cat v.txt".into(), r.join("libdir"))]),
             "inherited-output-inside-own-directory" => (vec![(vec![r.join("src")], None), (vec![r.join("src/gen")], Some(vec![".txt".into()]))], vec![]),
             "two-producers-same-command-text" => (vec![], vec![("cat v.txt".into(), r.join("pa")), ("cat v.txt".into(), r.join("pb"))]),
+            "two-producers-absolute-command-text" => (vec![], vec![("/bin/cat v.txt".into(), r.join("pa")), ("/bin/cat v.txt".into(), r.join("pb"))]),
             other => panic!("MACHINERY: no expectation written for layout {}", other),
         };
         rep.add_u64("transitions", 1);
